@@ -5,7 +5,8 @@ capacity (the documented meaning of `cumulative`, see `Props/C08.lean: cumulativ
 within the domains after `ttPass` / `ttFix`, and neither reports a conflict.
 -/
 import Pumpkin.Model.Cumulative
-import Pumpkin.Model.PropagationArith
+import Pumpkin.Model.PropagationSound
+import Pumpkin.Spec.CumSem
 
 namespace Pumpkin.Pg
 
@@ -56,9 +57,6 @@ theorem sumL_filter_le (ts : List Task) (p : Task → Bool) (g : Task → Int) (
     split
     · simp only [List.map_cons, sumL_cons]; omega
     · simp only [List.map_cons, sumL_cons]; omega
-
-/-- tasks well-formed for `n` variables: start views over existing variables, non-negative usages -/
-def tasksWf (n : Nat) (ts : List Task) : Prop := ∀ k ∈ ts, k.start.var < n ∧ 0 ≤ k.use
 
 theorem mandatory_runs {d : Doms} {a : List Int} (h : inDoms d a = true) (k : Task)
     (hw : k.start.var < d.length) (t : Int) (hm : mandatoryAt d k t = true) :
@@ -177,6 +175,26 @@ theorem ttPoints_ok {n : Nat} {a : List Int} (holes : Bool) (cap : Int) (ts : Li
       exact ih d' h' l'
     · exact ih d h hl
 
+/-- a task which on its own exceeds the capacity makes the constraint unsatisfiable -/
+theorem oversize_unsat {n : Nat} {a : List Int} (ts : List Task) (cap : Int) (hw : tasksWf n ts)
+    (hany : (ttTasks ts).any (fun k => decide (k.use > cap)) = true) : ¬ ∀ t, loadAt ts a t ≤ cap := by
+  intro hT
+  obtain ⟨k, hk, hku⟩ := List.any_eq_true.1 hany
+  simp only [decide_eq_true_eq] at hku
+  have hkf := List.mem_filter.1 hk
+  simp only [Bool.and_eq_true, decide_eq_true_eq] at hkf
+  have hload : k.use ≤ loadAt ts a (k.start.eval a) := by
+    rw [loadAt_eq_sumL]
+    have := sumL_map_add_le ts (fun _ => 0)
+      (fun j => if j.start.eval a ≤ k.start.eval a ∧ k.start.eval a < j.start.eval a + j.dur then j.use else 0)
+      k hkf.1 k.use (by intro j hj; have := hw j hj; split <;> omega)
+      (by have : k.start.eval a ≤ k.start.eval a ∧ k.start.eval a < k.start.eval a + k.dur := by omega
+          simp [this])
+    have hz := sumL_map_zero ts
+    omega
+  have := hT (k.start.eval a)
+  omega
+
 /-- **One evaluation of the time-table never removes the start times of a feasible schedule and
 reports no conflict when there is one** — for every domain state, every list of tasks (views, zero
 durations and usages included) and capacity. -/
@@ -241,7 +259,9 @@ theorem ttIterate_ok {n : Nat} {a : List Int} (cs : List (Bool × List Task × I
 theorem ttFix_ok {n : Nat} {a : List Int} (cs : List (Bool × List Task × Int)) (hw : ttWf n cs)
     (hs : ttSat cs a) (d : Doms) (h : inDoms d a = true) (hl : d.length = n) : Ok n a (ttFix cs d) := by
   unfold ttFix
-  rw [not_hasEmpty_of_inDoms h]
+  have := not_hasEmpty_of_inDoms h
+  unfold hasEmpty at this
+  rw [this]
   exact ttIterate_ok cs hw hs _ d h hl
 
 end Pumpkin.Pg
